@@ -461,11 +461,14 @@ def pearsonr(X, Y, Z, data, boolean=True, **kwargs):
 
     # Step 3: If Z is non-empty, use linear regression to compute residuals and test independence on it.
     else:
-        X_coef = np.linalg.lstsq(data.loc[:, Z], data.loc[:, X], rcond=None)[0]
-        Y_coef = np.linalg.lstsq(data.loc[:, Z], data.loc[:, Y], rcond=None)[0]
+        # Regress on Z *and an intercept*: without the constant column the residuals, and hence
+        # the partial correlation, change when any variable is merely shifted.
+        design = np.column_stack([data.loc[:, Z].to_numpy(), np.ones(data.shape[0])])
+        X_coef = np.linalg.lstsq(design, data.loc[:, X], rcond=None)[0]
+        Y_coef = np.linalg.lstsq(design, data.loc[:, Y], rcond=None)[0]
 
-        residual_X = data.loc[:, X] - data.loc[:, Z].dot(X_coef)
-        residual_Y = data.loc[:, Y] - data.loc[:, Z].dot(Y_coef)
+        residual_X = data.loc[:, X] - design.dot(X_coef)
+        residual_Y = data.loc[:, Y] - design.dot(Y_coef)
         coef, p_value = stats.pearsonr(residual_X, residual_Y)
 
     if boolean:
